@@ -183,15 +183,6 @@ def report (a : Answer) : Report where
   -- writes `<solution_stub><n>.sol` with that status iff a solution stub is set
   altCodes := if a.solStub then List.replicate a.nAlt a.code else []
 
-/-- The same decisions read off the *generated* guard structure of `ReportSolution2AMPL`. -/
-def reportGen (a : Answer) : Report where
-  objectiveShown := objectiveWritten a
-  codeWritten := finalCodeWritten a
-  primalPassed := a.hasPrimal
-  dualPassed := a.hasDual
-  objValuePassed := isProblemSolvedOrFeasible a.code && decide (a.nObj = 1)
-  altCodes := if a.solStub then List.replicate a.nAlt (altCodeWritten a) else []
-
 /-- Further observable uses of the classification in the reporting code
 (`ReportSolution2AMPL`, `StdBackend::ReportStandardSuffixes`, `MIPBackend::ReportRays`,
 `MIPBackend::CalculateAndReportIIS`). -/
@@ -208,6 +199,9 @@ structure Extras where
   dunbddSuffix : Bool
   /-- suffix `.iis`: `(IsProblemInfOrUnb() || IsProblemIndiffInfOrUnb()) && exportIIS` -/
   iisSuffix : Bool
+  /-- the message carries the solution-check warning: `FlatBackend::GetSolution` passes `IsProblemInfeasible()` to the
+      postsolver as "known infeasible", which skips the check -/
+  solCheckWarning : Bool
 deriving DecidableEq, Repr
 
 def extras (a : Answer) : Extras where
@@ -217,6 +211,7 @@ def extras (a : Answer) : Extras where
   unbddSuffix := a.rayPrimalOpt && (isProblemUnbounded a.code || isProblemIndiffInfOrUnb a.code)
   dunbddSuffix := a.rayDualOpt && (isProblemInfeasible a.code || isProblemIndiffInfOrUnb a.code)
   iisSuffix := (isProblemInfOrUnb a.code || isProblemIndiffInfOrUnb a.code) && a.iisOpt
+  solCheckWarning := a.solViolates && !isProblemInfeasible a.code
 
 
 /-! ## Round 4: composition of the solve message, reporting steps, registry insertion (hand model; proved equal to
@@ -316,6 +311,6 @@ def Report.toStr (r : Report) : String :=
   s!"objShown={b2s r.objectiveShown} code={r.codeWritten} primal={b2s r.primalPassed} dual={b2s r.dualPassed} objval={b2s r.objValuePassed} alt={",".intercalate (r.altCodes.map toString)}"
 
 def Extras.toStr (r : Extras) : String :=
-  s!"fr={b2s r.feasrelaxShown} orig={b2s r.origObjShown} kappa={b2s r.kappaSuffix} unbdd={b2s r.unbddSuffix} dunbdd={b2s r.dunbddSuffix} iis={b2s r.iisSuffix}"
+  s!"fr={b2s r.feasrelaxShown} orig={b2s r.origObjShown} kappa={b2s r.kappaSuffix} unbdd={b2s r.unbddSuffix} dunbdd={b2s r.dunbddSuffix} iis={b2s r.iisSuffix} chk={b2s r.solCheckWarning}"
 
 end MpVerif.C10
